@@ -354,6 +354,8 @@ def plan_hybrid(pid, tr, sd):
                 gs = gs[:3] + [gs[3 + i % 3]]
             if any(HY.is_h(ft) for _, ft, _d in spec[2]):
                 gs = gs + [dict(g0, defaults="nested0")]
+            if "Float" in label and "=" in label:
+                gs = gs + [dict(g0, defaults="near")]
             if any(d is not None and ft[0] == "array" for _, ft, d in spec[2]):
                 gs = gs + [dict(g0, defaults="bcast"), dict(variant=0, dim=1), dict(variant=0, dim=3)]
             for k, g in enumerate(gs):
